@@ -65,10 +65,11 @@ def contract_violation(test_units, lines):
     return None
 
 
-def run_case(ck, bindir_real, text_units, train_units, n, x, seed, nruns, njobs, ignore, grammar, category, family):
+def run_case(ck, bindir_real, text_units, train_units, n, x, seed, nruns, njobs, ignore, grammar, category, family, pre=''):
     text = gens.lines(text_units)
     train = None if train_units is None else gens.lines(train_units)
-    args = '-n %d -x %d -r %d -d 0 -E -a 0.0001 -b 10000 -e 1 -f 1 -g 100 -h 0.01 -R -1 -P' % (n, x, seed)
+    # pre: earlier occurrences of -n / -x that the later ones override (the program and the wrapper take the last)
+    args = pre + '-n %d -x %d -r %d -d 0 -E -a 0.0001 -b 10000 -e 1 -f 1 -g 100 -h 0.01 -R -1 -P' % (n, x, seed)
     work = tempfile.mkdtemp(prefix='c02-')
     capture = os.path.join(work, 'cap')
     os.mkdir(capture)
@@ -111,7 +112,12 @@ def main():
         nruns, njobs = rng.randint(1, 3), rng.randint(1, 3)
         ignore = rng.choice([0, 0, 1, -1, -2, emitted - 1])
         seed = rng.randint(1, 10**5)
-        res, runs, left, args = run_case(ck, bindir_real, text_units, train_units, n, x, seed, nruns, njobs, ignore, None, 'Colloc0', 'colloc0')
+        pre = ''
+        if k % 3 == 2:
+            # options given twice, e.g. overrides appended to a default argument string
+            pre = rng.choice(['-n %d ' % rng.choice([1, 30]), '-x %d ' % rng.choice([1, 7]), '-n %d -x %d ' % (rng.choice([1, 30]), rng.choice([1, 7]))])
+            ignore = rng.choice([1, -1, -2, emitted - 1, -(emitted - 1)])
+        res, runs, left, args = run_case(ck, bindir_real, text_units, train_units, n, x, seed, nruns, njobs, ignore, None, 'Colloc0', 'colloc0', pre)
         desc = {'text': gens.lines(text_units), 'train': None if train_units is None else gens.lines(train_units), 'args': args,
                 'nruns': nruns, 'njobs': njobs, 'ignore_first_parses': ignore, 'family': 'colloc0-%s' % ['self', 'same', 'disjoint'][mode]}
         if runs is None:
